@@ -8,7 +8,13 @@ the hoppings rescaled to ||T(k)||_2 <= tau (drawn in [0.5,1] eV) and s = gap + 2
 >= gap (drawn in [0.6,1.5] eV) at *every* k by Weyl's inequality -- no band touching (a 3D two-band model has Weyl
 points generically; an 8^3 mesh does not see them, and with them the sea form converges like 1/N).
 Spin: either a random Hermitian SS(R) matrix or the real `set_spin_pairs` construction (two co-centred orbitals).
-Only internal terms (no AA/BB/CC matrices), as planned in DESIGN.
+Option ext (3D, one case in two): the model also gets random AA (Hermitian), BB and CC (Hermitian) matrices and the Berry-dipole
+pair is evaluated with external_terms=True (the curvature then is the curl of the full connection A^H + U^+ AA U, still a
+periodic function of k, so the identity is unchanged).  Calibration on the unchanged tree (9 ext models, 24^3): Berry dipole
+rel 0.6-1.5 % - the thresholds are unchanged.  The orbital gyrotropic pair stays on internal terms: with external terms its
+two forms differed by 2.4-40 % on the same 9 models although the per-k derivative formula (Dermorb) equals the central finite
+difference of morb to 1e-9 with and without external terms (probe); the sea form is assembled from two large cancelling parts
+(DerMorb and 2 E_F x Berry dipole), so this is a convergence question the 24^3 grid does not settle - not asserted, not claimed.
 
 One `wannierberri.run()` per case (serial, no refinement, no symmetry) with tetra=True, a FermiDiracSmoother
 (T in [1000,2000] K) and the Fermi grid [E_min-3kT, E_max+3kT] with 4*(nE-1)+1 points, nE in 64..96 (dE ~ 0.05-0.15 kT);
@@ -119,7 +125,7 @@ RULE = ("sub pairs: random symmetry-free 2-band (2D: 2-3 band) tight-binding mod
         "orbital, and both Ohmic forms against the exact value factor*M_ab*n(T) for the parabolic models; "
         "non-trivial = every judged pair (and the exact value) agreed within PASS and, for the non-symmetric tensors, the "
         "transposed partner is off by > 0.3 (a sign flip is always off by ~2); distinct = distinct generated case")
-ASSUMPTIONS = ["internal terms only (kwargs_formula external_terms=False); models have no AA/BB/CC matrices",
+ASSUMPTIONS = ["internal terms only (kwargs_formula external_terms=False) except for the Berry-dipole pair of cases with ext=True (3D models with random AA/BB/CC matrices)",
                "every direct gap >= case['gap'] >= 0.6 eV at every k (Weyl's inequality on the rescaled model)",
                "2D models are planar (all centres share the out-of-plane coordinate): the identities need a k-integral "
                "along every differentiated direction",
@@ -172,7 +178,9 @@ def case_st(draw):
         if dim == 2:
             c[2] = cz
         centres.append(c)
-    return dict(dim=dim, ss=ss, nw=nw, extra=[list(r) for r in extra], centres=centres,
+    # external terms (position / B / C matrices of the model, Berry dipole and orbital gyrotropic pairs): 3D only, first choice True
+    ext = draw(st.sampled_from([True, False])) if dim == 3 else False
+    return dict(dim=dim, ss=ss, nw=nw, extra=[list(r) for r in extra], centres=centres, ext=ext,
                 lat=draw(wbsys.lattice_st()), rs=draw(st.integers(0, 2 ** 32)), decay=draw(st.sampled_from([1.0, 0.5, 2.0])),
                 tau=draw(fl(0.5, 1.0, 3)), gap=draw(fl(0.6, 1.5, 3)), T=draw(fl(1000.0, 2000.0, 1)), nE=draw(st.integers(64, 96)),
                 grid=draw(st.integers(0, 2)), use_factor=draw(st.booleans()),
@@ -194,7 +202,8 @@ def build_model(case):
     dim = case["dim"]
     first = [[1, 0, 0], [0, 1, 0]] + ([[0, 0, 1]] if dim == 3 else [])
     p = dict(lat=case["lat"], nw=case["nw"], R=first + [list(r) for r in case["extra"]], centres=case["centres"],
-             ckind="generic", keys=["Ham"] + (["SS"] if case["ss"] == "random" else []), rs=case["rs"],
+             ckind="generic", keys=["Ham"] + (["SS"] if case["ss"] == "random" else []) +
+             (["AA", "BB", "CC"] if case.get("ext") else []), rs=case["rs"],
              decay=case["decay"])
     model = wbsys.make_model(p)
     H = model.mats["Ham"]
@@ -225,11 +234,13 @@ def calculators(case, Ef, smoother, which="main"):
         kw.update(tetra=False)
         return dict(nldrude_d2=static.NLDrude_Fermider2(**kw))
     it = dict(kwargs_formula={"external_terms": False})
+    # external terms (case['ext']: the model then has AA, BB, CC matrices) are switched on for the Berry-dipole pair only, see docstring
+    bd = dict(kwargs_formula={"external_terms": bool(case.get("ext"))})
     # hole_like is an option of the Fermi-sea forms only (fder=0: f -> f-1 and the tetrahedron weights 1-w, see docstring)
     sea = dict(kw, hole_like=True) if case.get("hole") else kw
     return dict(
         ohmic_sea=static.Ohmic_FermiSea(**sea), ohmic_surf=static.Ohmic_FermiSurf(**kw),
-        berrydipole_sea=static.BerryDipole_FermiSea(**sea, **it), berrydipole_surf=static.BerryDipole_FermiSurf(**kw, **it),
+        berrydipole_sea=static.BerryDipole_FermiSea(**sea, **bd), berrydipole_surf=static.BerryDipole_FermiSurf(**kw, **bd),
         gme_spin_sea=static.GME_spin_FermiSea(**sea), gme_spin_surf=static.GME_spin_FermiSurf(**kw),
         gme_orb_sea=static.GME_orb_FermiSea(**sea, **it), gme_orb_surf=static.GME_orb_FermiSurf(**kw, **it),
         nldrude_sea=static.NLDrude_FermiSea(**sea), nldrude_surf=static.NLDrude_FermiSurf(**kw))
@@ -376,7 +387,7 @@ def check(case):
     nt = not blind
     worst = max(out[n]["rel"] for n in ("ohmic", "berrydipole", "gme_spin", "gme_orb"))
     return ok(nt, f"dim={dim}", f"nw={case['nw']}", f"ss={case['ss']}", f"use_factor={case['use_factor']}",
-              "hole_like" if case.get("hole") else "electron_like",
+              "hole_like" if case.get("hole") else "electron_like", "external-terms" if case.get("ext") else "internal-only",
               case["lat"]["kind"], "rel<1%" if worst < 0.01 else ("rel<2.5%" if worst < 0.025 else "rel<5%"),
               f"nldrude:{status['nldrude']}", f"f''form:{status['nldrude_d2']}",
               ("blind:" + ",".join(blind)) if blind else "all-pairs-discriminating")
